@@ -935,7 +935,22 @@ func ruleContextKeys(c *Ctx, r2, r3 string) {
 				}
 			}
 			if call.Call.IsInvoke() && call.Call.Method.Name() == "Value" && len(call.Call.Args) == 1 {
+				var ks []string
 				if k := keyName(call.Call.Args[0]); k != "" {
+					ks = append(ks, k)
+				} else if p, isP := stripConv(call.Call.Args[0]).(*ssa.Parameter); isP {
+					// a lookup helper shared by several accessors: the key is what each caller passes
+					for _, site := range w.callSitesOf(fn) {
+						for i, q := range fn.Params {
+							if q == p && i < len(site.Common().Args) {
+								if k := keyName(site.Common().Args[i]); k != "" {
+									ks = append(ks, k)
+								}
+							}
+						}
+					}
+				}
+				for _, k := range ks {
 					for _, r := range *call.Referrers() {
 						if ta, ok := r.(*ssa.TypeAssert); ok {
 							get(k).reads = append(get(k).reads, ta.AssertedType)
@@ -973,13 +988,18 @@ func ruleContextKeys(c *Ctx, r2, r3 string) {
 			continue
 		}
 		ok := false
-		forEachReturnValue(fn, 0, func(v ssa.Value, at ssa.Instruction) {
+		judge := func(v ssa.Value) {
 			if call, isC := stripConv(v).(*ssa.Call); isC && calleeName(call) == "(google.golang.org/grpc/metadata.MD).Copy" {
 				if ex, isEx := call.Call.Args[0].(*ssa.Extract); isEx {
 					if ta, isTA := ex.Tuple.(*ssa.TypeAssert); isTA {
-						if vc, isV := ta.X.(*ssa.Call); isV && vc.Call.IsInvoke() && vc.Call.Method.Name() == "Value" && stripConv(vc.Call.Value) == ssa.Value(fn.Params[0]) {
+						if vc, isV := ta.X.(*ssa.Call); isV && vc.Call.IsInvoke() && vc.Call.Method.Name() == "Value" && origin(vc.Call.Value) == ssa.Value(fn.Params[0]) {
 							// its own key: distinct from the other accessors' keys and stored somewhere (checked above)
 							k := keyName(vc.Call.Args[0])
+							if p, isP := vc.Call.Args[0].(*ssa.Parameter); isP && k == "" {
+								if b, bound := paramBindings[p]; bound {
+									k = keyName(b)
+								}
+							}
 							ok = k != "" && keys[k] != nil && len(keys[k].stored) >= 1
 							for _, other := range []string{"TunnelMetadataFromIncomingContext", "TunnelMetadataFromOutgoingContext", "TunnelChannelFromContext"} {
 								if other != name && w.accessorKey(other) == k {
@@ -987,6 +1007,26 @@ func ruleContextKeys(c *Ctx, r2, r3 string) {
 								}
 							}
 						}
+					}
+				}
+			}
+		}
+		forEachReturnValue(fn, 0, func(v ssa.Value, at ssa.Instruction) {
+			judge(v)
+			// delegated to a lookup helper shared by the accessors: its returns, with its parameters standing for this
+			// accessor's arguments
+			if ex, isEx := stripConv(v).(*ssa.Extract); isEx && !ok {
+				if hc, isC := ex.Tuple.(*ssa.Call); isC {
+					if h := helperCallee(hc); h != nil {
+						saved := paramBindings
+						paramBindings = map[*ssa.Parameter]ssa.Value{}
+						for i, p := range h.Params {
+							if i < len(hc.Call.Args) {
+								paramBindings[p] = hc.Call.Args[i]
+							}
+						}
+						forEachReturnValue(h, ex.Index, func(hv ssa.Value, _ ssa.Instruction) { judge(hv) })
+						paramBindings = saved
 					}
 				}
 			}
